@@ -3,15 +3,37 @@
 
   Theorems over `SpVerif.Model.Subgroups` (the rounds of `_resolve_subgroups` + the main parse).
   The loop theorems are by induction on the number of rounds, i.e. on the nesting depth of subgroups
-  inside subgroups, with no bound.  Gaps that are *named* here:
+  inside subgroups, with no bound.  Map:
+    §2-3   `c07_select(_round)`: key = given key (one of the subgroup's keys) else declared default
+    §3     `c07_unknown_key(_round)`: an unknown key at any depth ends with status 2
+    §4,11  `c07_value_defaults`, `c07_value_hidden`: the chosen entry's keywords / attributes are the defaults
+    §5     `c07_foreign(_run)`: an option addressing no active field is rejected
+    §7     `c07_reports_witness` / `c07_reports_partial`: `namespace.subgroups`
+    §12    `c07_origin` (`Good`): every field wrapper is a field of the root or of a CHOSEN entry
+           (`Active`/`Origin`), wrappers of unchosen alternatives are never created; the key selects the
+           type (`Chosen`: entry found under the key, its class recorded at the destination)
+    §13    `c07_dests_nodup`: destinations are unique for well-formed trees (`wfCls`)
+    §14    `c07_value_exact`, `c07_leaf_value`: each leaf is read off its own action; `c07_select_run`,
+           `c07_unknown_key_run`, `c07_unknown_key_main(_run)`: the same for `parse_args`
+  Gaps that are *named* here:
     * `ReportsStatement` (namespace.subgroups = the chosen keys, unconditionally) is refuted by
       `c07_reports_witness` (`--mod kb`: the choice parser forbids abbreviations, the main parser accepts
       them); `c07_reports_partial` proves it for command lines that the two parsers read alike.
     * `NoCrashStatement` is refuted by `c07_instance_witness` (a frozen-instance alternative whose class
       has a subgroup field with a default key: AssertionError).
     * under EXPLICIT resolution a valid tree can crash with ArgumentError (`c07_explicit_witness`).
+    * ACCEPTANCE is not proved: every theorem about values is of the form "if the parse returns, then";
+      that a command line made of exact options of the selected groups with valid keys on a clash-free
+      tree under AUTO *is* accepted (no conflict, `register`/`expandAll` succeed, nothing required is
+      missing) is checked by the oracle clause `accepts` on the real code and by correspondence only.
+    * FUEL: `loop` is given `depth + 1` rounds and answers `unmodelled` if that were not enough; that it
+      always is enough is not proved — instead the plug-in turns an `unmodelled` answer of `sg.e2e` /
+      `sg.rounds` on a well-shaped command line into a correspondence mismatch (0 on every run so far).
     * that option strings registered in the choice parser are never renamed by a later conflict
-      resolution is not proved (hypothesis `SameReading` of `c07_reports_partial`); it is covered by the
+      resolution is not proved (hypothesis `SameReading` of `c07_reports_partial`); and `c07_foreign` is
+      stated on the final table (`findOpt … = .none`) — the corollary "an option of a field of an unchosen
+      alternative that is a prefix of no active option is rejected" would need the clash-free FLAT naming
+      lemma (resolver leaves prefixes empty), which is not proved.  Both are covered by the
       correspondence ops `sg.rounds` / `sg.e2e`.
   Union[A, B] sub-commands use argparse sub-parsers, which are not modelled (oracle only).
 -/
@@ -121,20 +143,30 @@ theorem actValue_choice (ab : Bool) (tbl : List Act) (argv : List (Str × Str)) 
 
 /-! ### 2. one round -/
 
-/-- an action of the choice parser: `type=str`, `choices=` the keys -/
-def IsChoiceAct (a : Act) : Prop := a.conv = .base .str ∧ a.choices.isSome = true
+/-- what `add_argument` is given for a subgroup field wrapper: its own destination, `type=str`,
+    `choices=` the keys of its dict, `default=` its declared default key -/
+theorem toAct_sub (cfg : Cfg) (r : SRec) (d : Option Str) (f : Bool) (alts : Alts)
+    (h : r.kind = .sub d f alts) :
+    (r.toAct cfg).dest = r.dest ∧ (r.toAct cfg).conv = .base .str ∧
+    (r.toAct cfg).choices = some alts.keys ∧
+    (r.toAct cfg).default = d.map (fun k => Val.sc (.str k)) := by
+  unfold SRec.toAct
+  rw [h]
+  exact ⟨rfl, rfl, rfl, rfl⟩
 
-theorem toAct_sub_choice (cfg : Cfg) (r : SRec) (h : r.isSub = true) : IsChoiceAct (r.toAct cfg) := by
+theorem isSub_kind (r : SRec) (h : r.isSub = true) : ∃ d f alts, r.kind = .sub d f alts := by
   unfold SRec.isSub at h
-  unfold SRec.toAct IsChoiceAct
   cases hk : r.kind with
   | leaf c d => simp [hk] at h
-  | sub d f alts => simp
+  | sub d f alts => exact ⟨d, f, alts, rfl⟩
 
-/-- `register` only appends actions of subgroup fields -/
+/-- every action of the choice parser is the `add_argument` of a subgroup field wrapper -/
+def FromSub (cfg : Cfg) (a : Act) : Prop := ∃ r : SRec, r.isSub = true ∧ a = r.toAct cfg
+
+/-- `register` only appends the actions of the subgroup fields it is given -/
 theorem register_acts (cfg : Cfg) (rs : List SRec) (tbl tbl' : List Act)
     (h : register cfg tbl rs = .ok tbl') :
-    ∃ ext, tbl' = tbl ++ ext ∧ ∀ a ∈ ext, IsChoiceAct a := by
+    ∃ ext, tbl' = tbl ++ ext ∧ ∀ a ∈ ext, ∃ r ∈ rs, r.isSub = true ∧ a = r.toAct cfg := by
   induction rs generalizing tbl with
   | nil =>
     simp only [register, Except.ok.injEq] at h
@@ -144,7 +176,10 @@ theorem register_acts (cfg : Cfg) (rs : List SRec) (tbl tbl' : List Act)
     cases hk : r.kind with
     | leaf c d =>
       simp only [hk] at h
-      exact ih tbl h
+      obtain ⟨ext, he, hc⟩ := ih tbl h
+      exact ⟨ext, he, fun a ha => by
+        obtain ⟨r', hr', h1, h2⟩ := hc a ha
+        exact ⟨r', by simp [hr'], h1, h2⟩⟩
     | sub d f alts =>
       simp only [hk] at h
       split at h
@@ -155,8 +190,9 @@ theorem register_acts (cfg : Cfg) (rs : List SRec) (tbl tbl' : List Act)
           refine ⟨r.toAct cfg :: ext, by simp [he], ?_⟩
           intro a ha
           rcases List.mem_cons.mp ha with rfl | ha
-          · exact toAct_sub_choice cfg r (by simp [SRec.isSub, hk])
-          · exact hc a ha
+          · exact ⟨r, by simp, by simp [SRec.isSub, hk], rfl⟩
+          · obtain ⟨r', hr', h1, h2⟩ := hc a ha
+            exact ⟨r', by simp [hr'], h1, h2⟩
 
 /-- what a successful round consists of -/
 theorem round_ok (cfg : Cfg) (mode : CR) (st st' : RState) (argv : List (Str × Str))
@@ -187,13 +223,34 @@ theorem round_ok (cfg : Cfg) (mode : CR) (st st' : RState) (argv : List (Str × 
             subst h
             exact ⟨ns, recs, hreg, hp, hex, hre⟩
 
-/-- the selection rule, relative to the choice parser's table `tbl` of the round: the key is the last
-    value passed under an option addressing the destination (and then one of the keys), else the
-    declared default -/
-def Sel (tbl : List Act) (argv : List (Str × Str)) (d k : Str) : Prop :=
-  ∃ a ∈ tbl, a.dest = d ∧
-    ((lastFor false tbl d argv = some k ∧ ∀ ch, a.choices = some ch → ch.contains k = true) ∨
-     (lastFor false tbl d argv = none ∧ a.default = some (.sc (.str k))))
+/-- the selection rule, relative to the choice parser's table `tbl` of the round: `d` is the
+    destination of a subgroup field wrapper whose option is registered in `tbl`, and the key is the last
+    value passed under an option addressing `d` — which is then **one of that subgroup's keys** — else
+    the subgroup's **declared default key** -/
+def Sel (cfg : Cfg) (tbl : List Act) (argv : List (Str × Str)) (d k : Str) : Prop :=
+  ∃ (r : SRec) (dflt : Option Str) (forced : Bool) (alts : Alts),
+    r.kind = .sub dflt forced alts ∧ r.dest = d ∧ r.toAct cfg ∈ tbl ∧
+    ((lastFor false tbl d argv = some k ∧ alts.keys.contains k = true) ∨
+     (lastFor false tbl d argv = none ∧ dflt = some k))
+
+/-- the same in terms of the registered action -/
+theorem Sel.toAct {cfg : Cfg} {tbl : List Act} {argv : List (Str × Str)} {d k : Str}
+    (h : Sel cfg tbl argv d k) :
+    ∃ a ∈ tbl, a.dest = d ∧
+      ((lastFor false tbl d argv = some k ∧ ∀ ch, a.choices = some ch → ch.contains k = true) ∨
+       (lastFor false tbl d argv = none ∧ a.default = some (.sc (.str k)))) := by
+  obtain ⟨r, dflt, forced, alts, hk, hd, hm, hc⟩ := h
+  obtain ⟨h1, _, h3, h4⟩ := toAct_sub cfg r dflt forced alts hk
+  refine ⟨r.toAct cfg, hm, by rw [h1, hd], ?_⟩
+  rcases hc with ⟨hl, hin⟩ | ⟨hl, hdf⟩
+  · left
+    refine ⟨hl, ?_⟩
+    intro ch hch
+    rw [h3] at hch
+    injection hch with hch
+    rw [← hch]; exact hin
+  · right
+    exact ⟨hl, by rw [h4, hdf]; rfl⟩
 
 theorem expandOne_resolved (ns : List (Str × Val)) (r : SRec)
     (acc acc' : List SRec × List (Str × Str) × List (Str × Str) × List (Str × Val))
@@ -239,20 +296,22 @@ theorem expandAll_resolved (ns : List (Str × Val)) (rs : List SRec)
       · exact Or.inr hl
 
 /-- **c07_select, one round.** Every key resolved in a successful round follows the selection rule
-    with respect to that round's choice parser. -/
+    with respect to that round's choice parser: given key (one of the subgroup's keys) else the
+    declared default. -/
 theorem c07_select_round (cfg : Cfg) (mode : CR) (st st' : RState) (argv : List (Str × Str))
-    (hc : ∀ a ∈ st.ctbl, IsChoiceAct a)
+    (hc : ∀ a ∈ st.ctbl, FromSub cfg a)
     (h : round cfg mode st argv = .ok st') :
-    (∃ ext, st'.ctbl = st.ctbl ++ ext) ∧ (∀ a ∈ st'.ctbl, IsChoiceAct a) ∧
-    ∀ p ∈ st'.resolved, p ∈ st.resolved ∨ Sel st'.ctbl argv p.1 p.2 := by
+    (∃ ext, st'.ctbl = st.ctbl ++ ext) ∧ (∀ a ∈ st'.ctbl, FromSub cfg a) ∧
+    ∀ p ∈ st'.resolved, p ∈ st.resolved ∨ Sel cfg st'.ctbl argv p.1 p.2 := by
   obtain ⟨ns, recs, hreg, hp, hex, _⟩ := round_ok cfg mode st st' argv h
   obtain ⟨ext, he, hce⟩ := register_acts cfg _ _ _ hreg
-  have hall : ∀ a ∈ st'.ctbl, IsChoiceAct a := by
+  have hall : ∀ a ∈ st'.ctbl, FromSub cfg a := by
     intro a ha
     rw [he] at ha
     rcases List.mem_append.mp ha with ha | ha
     · exact hc a ha
-    · exact hce a ha
+    · obtain ⟨r, _, h1, h2⟩ := hce a ha
+      exact ⟨r, h1, h2⟩
   refine ⟨⟨ext, he⟩, hall, ?_⟩
   intro p hpm
   rcases expandAll_resolved ns _ _ _ hex p hpm with hin | hl
@@ -261,26 +320,39 @@ theorem c07_select_round (cfg : Cfg) (mode : CR) (st st' : RState) (argv : List 
     obtain ⟨hns, _, _, _⟩ := parseOut_ok _ _ _ _ _ hp
     rw [hns] at hl
     obtain ⟨a, ha, hd, hv⟩ := lookup_map_mem st'.ctbl (·.dest) (actValue false st'.ctbl argv) p.1 _ hl
-    have := actValue_choice false st'.ctbl argv a p.2 (hall a ha).1 hv
-    rw [hd] at this
-    exact ⟨a, ha, hd, this⟩
+    obtain ⟨r, hsub, rfl⟩ := hall a ha
+    obtain ⟨dflt, forced, alts, hk⟩ := isSub_kind r hsub
+    obtain ⟨h1, h2, h3, h4⟩ := toAct_sub cfg r dflt forced alts hk
+    have hcase := actValue_choice false st'.ctbl argv (r.toAct cfg) p.2 h2 hv
+    rw [hd] at hcase
+    refine ⟨r, dflt, forced, alts, hk, by rw [← h1]; exact hd, ha, ?_⟩
+    rcases hcase with ⟨hl1, hin⟩ | ⟨hl1, hdf⟩
+    · exact Or.inl ⟨hl1, hin _ h3⟩
+    · right
+      refine ⟨hl1, ?_⟩
+      rw [h4] at hdf
+      cases dflt with
+      | none => simp at hdf
+      | some k0 =>
+        simp only [Option.map_some, Option.some.injEq, Val.sc.injEq, Scalar.str.injEq] at hdf
+        rw [hdf]
 
 /-! ### 3. all rounds (any nesting depth) -/
 
 /-- the selection rule with respect to *some* stage of the choice parser that the final one extends
     (options are only ever added to it, and `findExact_append_left` shows that the options known at
     that stage keep addressing the same actions) -/
-def SelAt (final : List Act) (argv : List (Str × Str)) (d k : Str) : Prop :=
-  ∃ tbl ext, final = tbl ++ ext ∧ Sel tbl argv d k
+def SelAt (cfg : Cfg) (final : List Act) (argv : List (Str × Str)) (d k : Str) : Prop :=
+  ∃ tbl ext, final = tbl ++ ext ∧ Sel cfg tbl argv d k
 
 /-- **c07_select.** After any number of rounds (any nesting depth of subgroups inside subgroups),
-    every resolved subgroup's key is the key given for it on the command line, else its declared
-    default key; a given key is one of the subgroup's keys. -/
+    every resolved subgroup's key is the key given for it on the command line — one of the keys of
+    that subgroup's dict — else its declared default key. -/
 theorem c07_select (cfg : Cfg) (mode : CR) (n : Nat) (st st' : RState) (argv : List (Str × Str))
-    (hc : ∀ a ∈ st.ctbl, IsChoiceAct a)
+    (hc : ∀ a ∈ st.ctbl, FromSub cfg a)
     (h : loop cfg mode n st argv = .ok st') :
     (∃ ext, st'.ctbl = st.ctbl ++ ext) ∧
-    ∀ p ∈ st'.resolved, p ∈ st.resolved ∨ SelAt st'.ctbl argv p.1 p.2 := by
+    ∀ p ∈ st'.resolved, p ∈ st.resolved ∨ SelAt cfg st'.ctbl argv p.1 p.2 := by
   induction n generalizing st with
   | zero => simp [loop] at h
   | succ n ih =>
@@ -604,7 +676,7 @@ theorem c07_reports_witness : ¬ ReportsStatement := by
 theorem c07_reports_partial (cfg : Cfg) (st : RState) (argv : List (Str × Str)) (res : Res)
     (h : finishParse cfg st argv = .ok res) (tbl : List Act) (d k : Str)
     (hres : st.resolved.lookup d = some k)
-    (hsel : Sel tbl argv d k) (hsame : SameReading tbl (mainTable cfg st) argv d)
+    (hsel : Sel cfg tbl argv d k) (hsame : SameReading tbl (mainTable cfg st) argv d)
     (hopt : SameOptions tbl (mainTable cfg st) d)
     (r : SRec) (hr : r ∈ st.recs) (hsub : r.isSub = true) (hd : r.dest = d) :
     (d, Val.sc (.str k)) ∈ res.subgroups := by
@@ -648,7 +720,7 @@ theorem c07_reports_partial (cfg : Cfg) (st : RState) (argv : List (Str × Str))
         rw [hns, hl]
         simp only [Option.getD_some]
         rw [← hv]
-        obtain ⟨a, ha, had, hcases⟩ := hsel
+        obtain ⟨a, ha, had, hcases⟩ := hsel.toAct
         obtain ⟨hdef, hconv, hch⟩ := hopt a ha had a' ha' hd'
         have hlast := lastFor_congr tbl (mainTable cfg st) r.dest argv hsame
         unfold actValue
@@ -681,7 +753,7 @@ def instRoot : Cls := .mk "Root".toList
 
 /-- **witness (open finding C07-instance-with-subgroup).** Choosing the instance entry pushes the
     instance's `opt` attribute as the default of the nested subgroup option, which trips the assertion
-    at parsing.py:667 in the next round. -/
+    at parsing.py:692 in the next round. -/
 theorem c07_instance_witness : ¬ NoCrashStatement := by
   intro H
   exact H "config".toList instRoot [("--model".toList, "kf".toList)] (by decide)
@@ -831,5 +903,940 @@ example : Subgroups.run cfg0 .auto "config".toList presetRoot
           classes := [("config.preset".toList, "Preset".toList)],
           subgroups := [("config.preset".toList, .sc (.str "large".toList))],
           hidden := [("config.preset.url".toList, .sc (.str "l.pt".toList))] } := by decide
+
+/-! ### 12. the state after the rounds is tied to the tree -/
+
+/-- a field wrapper with its conflict prefix forgotten (the only thing the resolver changes) -/
+def stripRec (r : SRec) : SRec := { r with fr := { r.fr with pref := [] } }
+
+@[simp] theorem strip_kind (r : SRec) : (stripRec r).kind = r.kind := rfl
+@[simp] theorem strip_name (r : SRec) : (stripRec r).fr.name = r.fr.name := rfl
+@[simp] theorem strip_pd (r : SRec) : (stripRec r).fr.parentDest = r.fr.parentDest := rfl
+@[simp] theorem strip_level (r : SRec) : (stripRec r).fr.level = r.fr.level := rfl
+@[simp] theorem strip_dest (r : SRec) : (stripRec r).dest = r.dest := rfl
+@[simp] theorem strip_isSub (r : SRec) : (stripRec r).isSub = r.isSub := rfl
+
+theorem strip_eq_facts (r r0 : SRec) (h : stripRec r = stripRec r0) :
+    r.kind = r0.kind ∧ r.fr.name = r0.fr.name ∧ r.fr.parentDest = r0.fr.parentDest ∧
+    r.fr.level = r0.fr.level ∧ r.dest = r0.dest ∧ r.isSub = r0.isSub := by
+  refine ⟨?_, ?_, ?_, ?_, ?_, ?_⟩
+  · simpa using congrArg SRec.kind h
+  · simpa using congrArg (fun x => x.fr.name) h
+  · simpa using congrArg (fun x => x.fr.parentDest) h
+  · simpa using congrArg (fun x => x.fr.level) h
+  · simpa using congrArg SRec.dest h
+  · simpa using congrArg SRec.isSub h
+
+theorem applyPrefs_strip (recs : List SRec) (frs : List FieldRec) :
+    (applyPrefs recs frs).map stripRec = recs.map stripRec := by
+  induction recs generalizing frs with
+  | nil => rfl
+  | cons r rs ih =>
+    cases frs with
+    | nil => rfl
+    | cons f fs =>
+      simp only [applyPrefs, List.map_cons, ih fs]
+      rfl
+
+/-- re-running the conflict resolver changes prefixes only: same wrappers, same order -/
+theorem reResolve_strip (cfg : Cfg) (mode : CR) (recs recs' : List SRec)
+    (h : reResolve cfg mode recs = .ok recs') : recs'.map stripRec = recs.map stripRec := by
+  unfold reResolve at h
+  split at h
+  · injection h with h
+    subst h
+    exact applyPrefs_strip _ _
+  · cases h
+  · cases h
+
+theorem mem_of_map_strip (l l' : List SRec) (h : l'.map stripRec = l.map stripRec) (x : SRec)
+    (hx : x ∈ l') : ∃ r ∈ l, stripRec x = stripRec r := by
+  have : stripRec x ∈ l'.map stripRec := List.mem_map.mpr ⟨x, hx, rfl⟩
+  rw [h] at this
+  obtain ⟨r, hr, he⟩ := List.mem_map.mp this
+  exact ⟨r, hr, he.symm⟩
+
+theorem map_dest_of_map_strip (l l' : List SRec) (h : l'.map stripRec = l.map stripRec) :
+    l'.map SRec.dest = l.map SRec.dest := by
+  have e : ∀ (m : List SRec), m.map SRec.dest = (m.map stripRec).map SRec.dest := by
+    intro m; simp [List.map_map, Function.comp_def]
+  rw [e l', e l, h]
+
+theorem mem_insertChild (p : Str) (new : List SRec) (x : SRec) (l : List SRec) :
+    x ∈ insertChild p new l ↔ x ∈ new ∨ x ∈ l := by
+  induction l with
+  | nil => simp [insertChild]
+  | cons r rs ih =>
+    unfold insertChild
+    split
+    · simp only [List.mem_cons, ih]
+      constructor
+      · rintro (h | h | h)
+        · exact Or.inr (Or.inl h)
+        · exact Or.inl h
+        · exact Or.inr (Or.inr h)
+      · rintro (h | h | h)
+        · exact Or.inr (Or.inl h)
+        · exact Or.inl h
+        · exact Or.inr (Or.inr h)
+    · simp only [List.mem_cons, List.mem_append]
+      constructor
+      · rintro (h | h | h)
+        · exact Or.inr (Or.inl h)
+        · exact Or.inl h
+        · exact Or.inr (Or.inr h)
+      · rintro (h | h | h)
+        · exact Or.inr (Or.inl h)
+        · exact Or.inl h
+        · exact Or.inr (Or.inr h)
+
+/-- the new wrappers are spliced into the list; nothing is dropped or reordered -/
+theorem insertChild_split (p : Str) (new : List SRec) (l : List SRec) :
+    ∃ l₁ l₂, l = l₁ ++ l₂ ∧ insertChild p new l = l₁ ++ (new ++ l₂) := by
+  induction l with
+  | nil => exact ⟨[], [], rfl, by simp [insertChild]⟩
+  | cons r rs ih =>
+    unfold insertChild
+    split
+    · obtain ⟨l₁, l₂, h1, h2⟩ := ih
+      exact ⟨r :: l₁, l₂, by simp [h1], by simp [h2]⟩
+    · exact ⟨[r], rs, rfl, rfl⟩
+
+/-- membership of a subgroup field in a class body -/
+def HasSub (n : Str) (d : Option Str) (alts : Alts) : Flds → Prop
+  | .nil => False
+  | .leaf _ _ _ rest => HasSub n d alts rest
+  | .hidden _ _ rest => HasSub n d alts rest
+  | .sub n' d' alts' rest => (n' = n ∧ d' = d ∧ alts' = alts) ∨ HasSub n d alts rest
+
+/-- **the active part of the tree.** `Active dest0 root resolved pd lvl kw forced fs`: the class body
+    `fs` is wrapped at destination `pd` (nesting level `lvl`, overrides `kw`, `forced` = it is a frozen
+    instance) — because it is the root's, or because it is the body of the entry that `resolved` records
+    for a subgroup field of an active body.  Bodies of unchosen alternatives are not active. -/
+inductive Active (dest0 : Str) (root : Cls) (resolved : List (Str × Str)) :
+    Str → Nat → Kw → Bool → Flds → Prop
+  | root : Active dest0 root resolved dest0 1 [] false root.fields
+  | chosen (pd : Str) (lvl : Nat) (kw : Kw) (forced : Bool) (fs : Flds)
+      (n : Str) (d : Option Str) (alts : Alts) (k : Str) (kind : AltKind) (kw' : Kw) (cls : Cls) :
+      Active dest0 root resolved pd lvl kw forced fs → HasSub n d alts fs →
+      (pd ++ '.' :: n, k) ∈ resolved → alts.find k = some (kind, kw', cls) →
+      Active dest0 root resolved (pd ++ '.' :: n) (lvl + 1) kw' (kind == .inst) cls.fields
+
+theorem Active.mono {dest0 : Str} {root : Cls} {res res' : List (Str × Str)}
+    (hsub : ∀ p ∈ res, p ∈ res') {pd : Str} {lvl : Nat} {kw : Kw} {forced : Bool} {fs : Flds}
+    (h : Active dest0 root res pd lvl kw forced fs) : Active dest0 root res' pd lvl kw forced fs := by
+  induction h with
+  | root => exact .root
+  | chosen pd lvl kw forced fs n d alts k kind kw' cls _ hs hm hf ih =>
+    exact .chosen pd lvl kw forced fs n d alts k kind kw' cls ih hs (hsub _ hm) hf
+
+/-- an active body sits at the root destination or at a destination recorded in `resolved` -/
+theorem Active.parent {dest0 : Str} {root : Cls} {res : List (Str × Str)}
+    {pd : Str} {lvl : Nat} {kw : Kw} {forced : Bool} {fs : Flds}
+    (h : Active dest0 root res pd lvl kw forced fs) : pd = dest0 ∨ ∃ k, (pd, k) ∈ res := by
+  cases h with
+  | root => exact Or.inl rfl
+  | chosen pd lvl kw forced fs n d alts k kind kw' cls _ _ hm _ => exact Or.inr ⟨k, hm⟩
+
+/-- where a field wrapper comes from: it is (up to its conflict prefix) one of the wrappers that
+    `DataclassWrapper.__init__` creates for an **active** class body -/
+def Origin (dest0 : Str) (root : Cls) (resolved : List (Str × Str)) (r : SRec) : Prop :=
+  ∃ pd lvl kw forced fs, Active dest0 root resolved pd lvl kw forced fs ∧
+    ∃ r0 ∈ recsOf pd lvl kw forced fs, stripRec r = stripRec r0
+
+theorem Origin.mono {dest0 : Str} {root : Cls} {res res' : List (Str × Str)}
+    (hsub : ∀ p ∈ res, p ∈ res') {r : SRec} (h : Origin dest0 root res r) : Origin dest0 root res' r := by
+  obtain ⟨pd, lvl, kw, forced, fs, ha, r0, h0, he⟩ := h
+  exact ⟨pd, lvl, kw, forced, fs, ha.mono hsub, r0, h0, he⟩
+
+theorem Origin.of_strip {dest0 : Str} {root : Cls} {res : List (Str × Str)} {r r' : SRec}
+    (he : stripRec r' = stripRec r) (h : Origin dest0 root res r) : Origin dest0 root res r' := by
+  obtain ⟨pd, lvl, kw, forced, fs, ha, r0, h0, he0⟩ := h
+  exact ⟨pd, lvl, kw, forced, fs, ha, r0, h0, he.trans he0⟩
+
+/-- what `recsOf` creates for a class body -/
+theorem recsOf_mem (pd : Str) (lvl : Nat) (kw : Kw) (forced : Bool) :
+    (fs : Flds) → (r0 : SRec) → r0 ∈ recsOf pd lvl kw forced fs →
+    r0.fr.parentDest = pd ∧ r0.fr.level = lvl ∧
+    ∀ d f alts, r0.kind = .sub d f alts → f = forced ∧ HasSub r0.fr.name d alts fs
+  | .nil, r0, h => by simp [recsOf] at h
+  | .leaf n c d rest, r0, h => by
+    simp only [recsOf, List.mem_cons] at h
+    rcases h with rfl | h
+    · exact ⟨rfl, rfl, by intro d f alts hk; simp at hk⟩
+    · obtain ⟨h1, h2, h3⟩ := recsOf_mem pd lvl kw forced rest r0 h
+      exact ⟨h1, h2, fun d f alts hk => h3 d f alts hk⟩
+  | .hidden n d rest, r0, h => by
+    simp only [recsOf] at h
+    obtain ⟨h1, h2, h3⟩ := recsOf_mem pd lvl kw forced rest r0 h
+    exact ⟨h1, h2, fun d f alts hk => h3 d f alts hk⟩
+  | .sub n d' alts' rest, r0, h => by
+    simp only [recsOf, List.mem_cons] at h
+    rcases h with rfl | h
+    · refine ⟨rfl, rfl, ?_⟩
+      intro d f alts hk
+      simp only [RKind.sub.injEq] at hk
+      exact ⟨hk.2.1.symm, Or.inl ⟨rfl, hk.1, hk.2.2⟩⟩
+    · obtain ⟨h1, h2, h3⟩ := recsOf_mem pd lvl kw forced rest r0 h
+      exact ⟨h1, h2, fun d f alts hk => ⟨(h3 d f alts hk).1, Or.inr (h3 d f alts hk).2⟩⟩
+
+/-- a resolved subgroup: its field wrapper is there, the key is a key of its dict, and the class
+    wrapped at its destination is the class of that entry — **the key selects the type** -/
+def Chosen (recs : List SRec) (classes : List (Str × Str)) (d k : Str) : Prop :=
+  ∃ r ∈ recs, r.dest = d ∧ ∃ dflt forced alts kind kw cls, r.kind = .sub dflt forced alts ∧
+    alts.find k = some (kind, kw, cls) ∧ (d, cls.name) ∈ classes
+
+theorem Chosen.mono {recs recs' : List SRec} {classes classes' : List (Str × Str)} {d k : Str}
+    (hr : ∀ x ∈ recs, ∃ x' ∈ recs', stripRec x' = stripRec x) (hc : ∀ p ∈ classes, p ∈ classes')
+    (h : Chosen recs classes d k) : Chosen recs' classes' d k := by
+  obtain ⟨r, hm, hd, dflt, forced, alts, kind, kw, cls, hk, hf, hcl⟩ := h
+  obtain ⟨r', hm', he⟩ := hr r hm
+  obtain ⟨e1, _, _, _, e5, _⟩ := strip_eq_facts r' r he
+  exact ⟨r', hm', by rw [e5, hd], dflt, forced, alts, kind, kw, cls, by rw [e1, hk], hf, hc _ hcl⟩
+
+/-- the three facts carried through a round -/
+structure AccGood (dest0 : Str) (root : Cls)
+    (acc : List SRec × List (Str × Str) × List (Str × Str) × List (Str × Val)) : Prop where
+  origin : ∀ x ∈ acc.1, Origin dest0 root acc.2.1 x
+  chosen : ∀ p ∈ acc.2.1, Chosen acc.1 acc.2.2.1 p.1 p.2
+
+theorem expandOne_good (dest0 : Str) (root : Cls) (ns : List (Str × Val)) (r : SRec)
+    (acc acc' : List SRec × List (Str × Str) × List (Str × Str) × List (Str × Val))
+    (hg : AccGood dest0 root acc) (hr : r ∈ acc.1)
+    (h : expandOne ns r acc = .ok acc') :
+    AccGood dest0 root acc' ∧ (∀ x ∈ acc.1, x ∈ acc'.1) ∧ (∀ p ∈ acc.2.1, p ∈ acc'.2.1) ∧
+    (∀ p ∈ acc'.2.1, p ∈ acc.2.1 ∨ p.1 = r.dest) := by
+  unfold expandOne at h
+  split at h
+  · injection h with h
+    subst h
+    exact ⟨hg, fun x hx => hx, fun p hp => hp, fun p hp => Or.inl hp⟩
+  · rename_i dflt forced alts hk
+    split at h
+    · rename_i k hl
+      split at h
+      · cases h
+      · rename_i kind kw cls hf
+        injection h with h
+        subst h
+        have hres : ∀ p ∈ acc.2.1, p ∈ acc.2.1 ++ [(r.dest, k)] := fun p hp => by simp [hp]
+        have hrecs : ∀ x ∈ acc.1, x ∈ insertChild r.fr.parentDest
+            (recsOf r.dest (r.fr.level + 1) kw (kind == .inst) cls.fields) acc.1 :=
+          fun x hx => (mem_insertChild _ _ _ _).mpr (Or.inr hx)
+        refine ⟨⟨?_, ?_⟩, hrecs, hres, ?_⟩
+        · intro x hx
+          rcases (mem_insertChild _ _ _ _).mp hx with hnew | hold
+          · -- a wrapper of the chosen entry
+            obtain ⟨pd, lvl, kw0, f0, fs, ha, r0, h0, he⟩ := hg.origin r hr
+            obtain ⟨e1, e2, e3, e4, _, _⟩ := strip_eq_facts r r0 he
+            obtain ⟨p1, p2, p3⟩ := recsOf_mem pd lvl kw0 f0 fs r0 h0
+            obtain ⟨_, hs⟩ := p3 dflt forced alts (by rw [← e1, hk])
+            have hdest : r.dest = pd ++ '.' :: r0.fr.name := by
+              unfold SRec.dest; rw [e3, p1, e2]
+            have hlvl : r.fr.level + 1 = lvl + 1 := by rw [e4, p2]
+            refine ⟨r.dest, r.fr.level + 1, kw, kind == .inst, cls.fields, ?_, x, hnew, rfl⟩
+            have hact : Active dest0 root (acc.2.1 ++ [(r.dest, k)]) (pd ++ '.' :: r0.fr.name) (lvl + 1) kw
+                (kind == .inst) cls.fields :=
+              .chosen pd lvl kw0 f0 fs r0.fr.name dflt alts k kind kw cls (ha.mono hres) hs
+                (by rw [← hdest]; simp) hf
+            rw [← hdest, ← hlvl] at hact
+            exact hact
+          · exact (hg.origin x hold).mono hres
+        · intro p hp
+          rcases List.mem_append.mp hp with hp | hp
+          · exact (hg.chosen p hp).mono (fun x hx => ⟨x, hrecs x hx, rfl⟩) (fun q hq => by simp [hq])
+          · simp only [List.mem_singleton] at hp
+            subst hp
+            exact ⟨r, hrecs r hr, rfl, dflt, forced, alts, kind, kw, cls, hk, hf, by simp⟩
+        · intro p hp
+          rcases List.mem_append.mp hp with hp | hp
+          · exact Or.inl hp
+          · simp only [List.mem_singleton] at hp
+            exact Or.inr (by rw [hp])
+    · cases h
+
+theorem expandAll_good (dest0 : Str) (root : Cls) (ns : List (Str × Val)) (rs : List SRec)
+    (acc acc' : List SRec × List (Str × Str) × List (Str × Str) × List (Str × Val))
+    (hg : AccGood dest0 root acc) (hrs : ∀ r ∈ rs, r ∈ acc.1)
+    (h : expandAll ns rs acc = .ok acc') :
+    AccGood dest0 root acc' ∧ (∀ x ∈ acc.1, x ∈ acc'.1) ∧ (∀ p ∈ acc.2.1, p ∈ acc'.2.1) ∧
+    (∀ p ∈ acc'.2.1, p ∈ acc.2.1 ∨ ∃ r ∈ rs, p.1 = r.dest) := by
+  induction rs generalizing acc with
+  | nil =>
+    simp only [expandAll, Except.ok.injEq] at h
+    subst h
+    exact ⟨hg, fun x hx => hx, fun p hp => hp, fun p hp => Or.inl hp⟩
+  | cons r rs ih =>
+    unfold expandAll at h
+    split at h
+    · cases h
+    · rename_i acc1 h1
+      obtain ⟨g1, s1, t1, u1⟩ := expandOne_good dest0 root ns r acc acc1 hg (hrs r (by simp)) h1
+      obtain ⟨g2, s2, t2, u2⟩ := ih acc1 g1 (fun x hx => s1 x (hrs x (by simp [hx]))) h
+      refine ⟨g2, fun x hx => s2 x (s1 x hx), fun p hp => t2 p (t1 p hp), ?_⟩
+      intro p hp
+      rcases u2 p hp with hp | ⟨r', hr', he⟩
+      · rcases u1 p hp with hp | he
+        · exact Or.inl hp
+        · exact Or.inr ⟨r, by simp, he⟩
+      · exact Or.inr ⟨r', by simp [hr'], he⟩
+
+/-- the invariant of the rounds -/
+structure Good (dest0 : Str) (root : Cls) (st : RState) : Prop where
+  origin : ∀ x ∈ st.recs, Origin dest0 root st.resolved x
+  chosen : ∀ p ∈ st.resolved, Chosen st.recs st.classes p.1 p.2
+
+theorem unresolved_mem (st : RState) (r : SRec) (h : r ∈ unresolved st) :
+    r ∈ st.recs ∧ r.isSub = true ∧ ∀ k, (r.dest, k) ∉ st.resolved := by
+  unfold unresolved at h
+  simp only [List.mem_filter, Bool.and_eq_true, Bool.not_eq_true', List.any_eq_false,
+    decide_eq_true_eq] at h
+  exact ⟨h.1, h.2.1, fun k hk => h.2.2 (r.dest, k) hk rfl⟩
+
+/-- **one round preserves the tie to the tree** -/
+theorem round_good (cfg : Cfg) (mode : CR) (dest0 : Str) (root : Cls) (st st' : RState)
+    (argv : List (Str × Str)) (hg : Good dest0 root st) (h : round cfg mode st argv = .ok st') :
+    Good dest0 root st' := by
+  obtain ⟨ns, recs, _, _, hex, hre⟩ := round_ok cfg mode st st' argv h
+  obtain ⟨g, _, _, _⟩ := expandAll_good dest0 root ns (unresolved st) _ _
+    ⟨hg.origin, hg.chosen⟩ (fun r hr => (unresolved_mem st r hr).1) hex
+  have hs := reResolve_strip cfg mode recs st'.recs hre
+  refine ⟨?_, ?_⟩
+  · intro x hx
+    obtain ⟨r, hr, he⟩ := mem_of_map_strip recs st'.recs hs x hx
+    exact (g.origin r hr).of_strip he
+  · intro p hp
+    refine (g.chosen p hp).mono ?_ (fun q hq => hq)
+    intro x hx
+    obtain ⟨x', hx', he⟩ := mem_of_map_strip st'.recs recs hs.symm x hx
+    exact ⟨x', hx', he.symm⟩
+
+theorem loop_good (cfg : Cfg) (mode : CR) (dest0 : Str) (root : Cls) (n : Nat) (st st' : RState)
+    (argv : List (Str × Str)) (hg : Good dest0 root st) (h : loop cfg mode n st argv = .ok st') :
+    Good dest0 root st' := by
+  induction n generalizing st with
+  | zero => simp [loop] at h
+  | succ n ih =>
+    unfold loop at h
+    split at h
+    · rename_i st1 hr
+      have g1 := round_good cfg mode dest0 root st st1 argv hg hr
+      split at h
+      · injection h with h; subst h; exact g1
+      · exact ih st1 g1 h
+    · cases h
+    · cases h
+    · cases h
+
+theorem initState_good (cfg : Cfg) (mode : CR) (dest : Str) (root : Cls) (st0 : RState)
+    (h : initState cfg mode dest root = .ok st0) :
+    Good dest root st0 ∧ st0.resolved = [] ∧ st0.ctbl = [] := by
+  unfold initState at h
+  split at h
+  · cases h
+  · rename_i recs hre
+    injection h with h
+    subst h
+    have hs := reResolve_strip cfg mode _ recs hre
+    refine ⟨⟨?_, by intro p hp; cases hp⟩, rfl, rfl⟩
+    intro x hx
+    obtain ⟨r0, h0, he⟩ := mem_of_map_strip _ recs hs x hx
+    exact ⟨dest, 1, [], false, root.fields, .root, r0, h0, he⟩
+
+/-- **c07_origin.** After `_resolve_subgroups` (any depth): every field wrapper is — up to its conflict
+    prefix — a wrapper of the root's class body or of the body of an entry that was **chosen** (recorded
+    in `resolved`) for a subgroup field of an active body, with that entry's keywords as overrides
+    (`c07_value_defaults` says what they do to the defaults).  So a wrapper of an unchosen alternative
+    is never created.  And every resolved subgroup's key is a key of its dict whose entry's class is the
+    one wrapped at its destination (`Chosen`): the key selects the type. -/
+theorem c07_origin (cfg : Cfg) (mode : CR) (dest : Str) (root : Cls) (argv : List (Str × Str))
+    (st : RState) (h : resolveSubgroups cfg mode dest root argv = .ok st) : Good dest root st := by
+  unfold resolveSubgroups at h
+  split at h
+  · cases h
+  · rename_i st0 h0
+    obtain ⟨g0, _, _⟩ := initState_good cfg mode dest root st0 h0
+    split at h
+    · injection h with h; subst h; exact g0
+    · exact loop_good cfg mode dest root _ st0 st argv g0 h
+
+/-! ### 13. destinations are unique (well-formed trees), hence every value is read off its own action -/
+
+/-- names of the fields that get a field wrapper -/
+def fldNames : Flds → List Str
+  | .nil => []
+  | .leaf n _ _ rest => n :: fldNames rest
+  | .hidden _ _ rest => fldNames rest
+  | .sub n _ _ rest => n :: fldNames rest
+
+mutual
+  /-- a well-formed tree: within every class the field names are distinct and dot-free
+      (they are Python identifiers of one dataclass) -/
+  def wfCls : Cls → Prop
+    | .mk _ f => wfFlds f
+  def wfFlds : Flds → Prop
+    | .nil => True
+    | .leaf n _ _ rest => '.' ∉ n ∧ n ∉ fldNames rest ∧ wfFlds rest
+    | .hidden _ _ rest => wfFlds rest
+    | .sub n _ alts rest => '.' ∉ n ∧ n ∉ fldNames rest ∧ wfAlts alts ∧ wfFlds rest
+  def wfAlts : Alts → Prop
+    | .nil => True
+    | .cons _ _ _ cls rest => wfCls cls ∧ wfAlts rest
+end
+
+theorem wfCls_fields (c : Cls) (h : wfCls c) : wfFlds c.fields := by
+  cases c with
+  | mk n f => simpa [wfCls, Cls.fields] using h
+
+theorem wfFlds_names : (fs : Flds) → wfFlds fs → (fldNames fs).Nodup ∧ ∀ n ∈ fldNames fs, '.' ∉ n
+  | .nil, _ => by simp [fldNames]
+  | .leaf n _ _ rest, h => by
+    simp only [wfFlds] at h
+    obtain ⟨h1, h2⟩ := wfFlds_names rest h.2.2
+    refine ⟨by simp only [fldNames]; exact List.nodup_cons.mpr ⟨h.2.1, h1⟩, ?_⟩
+    intro m hm
+    simp only [fldNames, List.mem_cons] at hm
+    rcases hm with rfl | hm
+    · exact h.1
+    · exact h2 m hm
+  | .hidden _ _ rest, h => by
+    simp only [wfFlds] at h
+    simpa [fldNames] using wfFlds_names rest h
+  | .sub n _ _ rest, h => by
+    simp only [wfFlds] at h
+    obtain ⟨h1, h2⟩ := wfFlds_names rest h.2.2.2
+    refine ⟨by simp only [fldNames]; exact List.nodup_cons.mpr ⟨h.2.1, h1⟩, ?_⟩
+    intro m hm
+    simp only [fldNames, List.mem_cons] at hm
+    rcases hm with rfl | hm
+    · exact h.1
+    · exact h2 m hm
+
+theorem wfFlds_hasSub (n : Str) (d : Option Str) (alts : Alts) :
+    (fs : Flds) → wfFlds fs → HasSub n d alts fs → wfAlts alts
+  | .nil, _, hs => by simp [HasSub] at hs
+  | .leaf _ _ _ rest, h, hs => by
+    simp only [wfFlds] at h; simp only [HasSub] at hs
+    exact wfFlds_hasSub n d alts rest h.2.2 hs
+  | .hidden _ _ rest, h, hs => by
+    simp only [wfFlds] at h; simp only [HasSub] at hs
+    exact wfFlds_hasSub n d alts rest h hs
+  | .sub _ _ alts' rest, h, hs => by
+    simp only [wfFlds] at h; simp only [HasSub] at hs
+    rcases hs with ⟨_, _, rfl⟩ | hs
+    · exact h.2.2.1
+    · exact wfFlds_hasSub n d alts rest h.2.2.2 hs
+
+theorem wfAlts_find (k : Str) (kind : AltKind) (kw : Kw) (cls : Cls) :
+    (alts : Alts) → wfAlts alts → alts.find k = some (kind, kw, cls) → wfCls cls
+  | .nil, _, hf => by simp [Alts.find] at hf
+  | .cons k' kind' kw' cls' rest, h, hf => by
+    simp only [wfAlts] at h
+    simp only [Alts.find] at hf
+    split at hf
+    · simp only [Option.some.injEq, Prod.mk.injEq] at hf
+      rw [← hf.2.2]; exact h.1
+    · exact wfAlts_find k kind kw cls rest h.2 hf
+
+theorem Active.wf {dest0 : Str} {root : Cls} {res : List (Str × Str)} (hwf : wfCls root)
+    {pd : Str} {lvl : Nat} {kw : Kw} {forced : Bool} {fs : Flds}
+    (h : Active dest0 root res pd lvl kw forced fs) : wfFlds fs := by
+  induction h with
+  | root => exact wfCls_fields root hwf
+  | chosen pd lvl kw forced fs n d alts k kind kw' cls _ hs _ hf ih =>
+    exact wfCls_fields cls (wfAlts_find k kind kw' cls alts (wfFlds_hasSub n d alts fs ih hs) hf)
+
+theorem recsOf_name_mem (pd : Str) (lvl : Nat) (kw : Kw) (forced : Bool) :
+    (fs : Flds) → (r0 : SRec) → r0 ∈ recsOf pd lvl kw forced fs → r0.fr.name ∈ fldNames fs
+  | .nil, r0, h => by simp [recsOf] at h
+  | .leaf n c d rest, r0, h => by
+    simp only [recsOf, List.mem_cons] at h
+    rcases h with rfl | h
+    · simp [fldNames]
+    · simp [fldNames, recsOf_name_mem pd lvl kw forced rest r0 h]
+  | .hidden n d rest, r0, h => by
+    simp only [recsOf] at h
+    simp [fldNames, recsOf_name_mem pd lvl kw forced rest r0 h]
+  | .sub n d alts rest, r0, h => by
+    simp only [recsOf, List.mem_cons] at h
+    rcases h with rfl | h
+    · simp [fldNames]
+    · simp [fldNames, recsOf_name_mem pd lvl kw forced rest r0 h]
+
+theorem recsOf_dests (pd : Str) (lvl : Nat) (kw : Kw) (forced : Bool) :
+    (fs : Flds) → (recsOf pd lvl kw forced fs).map SRec.dest = (fldNames fs).map (fun n => pd ++ '.' :: n)
+  | .nil => rfl
+  | .leaf n c d rest => by
+    simp only [recsOf, fldNames, List.map_cons, recsOf_dests pd lvl kw forced rest]; rfl
+  | .hidden n d rest => by
+    simp only [recsOf, fldNames, recsOf_dests pd lvl kw forced rest]
+  | .sub n d alts rest => by
+    simp only [recsOf, fldNames, List.map_cons, recsOf_dests pd lvl kw forced rest]; rfl
+
+theorem nodup_map_prefix (pd : Str) (l : List Str) (h : l.Nodup) :
+    (l.map (fun n => pd ++ '.' :: n)).Nodup := by
+  induction l with
+  | nil => simp
+  | cons n ns ih =>
+    obtain ⟨h1, h2⟩ := List.nodup_cons.mp h
+    simp only [List.map_cons]
+    refine List.nodup_cons.mpr ⟨?_, ih h2⟩
+    intro hm
+    obtain ⟨m, hm1, hm2⟩ := List.mem_map.mp hm
+    have := List.append_cancel_left hm2
+    simp only [List.cons.injEq, true_and] at this
+    exact h1 (this ▸ hm1)
+
+/-- a dotted destination splits uniquely into parent destination and (dot-free) field name -/
+theorem dest_split_inj (pd pd' n n' : Str) (hn : '.' ∉ n) (hn' : '.' ∉ n')
+    (h : pd ++ '.' :: n = pd' ++ '.' :: n') : pd = pd' ∧ n = n' := by
+  induction pd generalizing pd' with
+  | nil =>
+    cases pd' with
+    | nil => simpa using h
+    | cons c t =>
+      simp only [List.nil_append, List.cons_append, List.cons.injEq] at h
+      exact absurd (by rw [h.2]; simp) hn
+  | cons a s ih =>
+    cases pd' with
+    | nil =>
+      simp only [List.nil_append, List.cons_append, List.cons.injEq] at h
+      exact absurd (by rw [← h.2]; simp) hn'
+    | cons c t =>
+      simp only [List.cons_append, List.cons.injEq] at h
+      obtain ⟨e1, e2⟩ := ih t h.2
+      exact ⟨by rw [h.1, e1], e2⟩
+
+theorem nodup_map_inj {α β : Type} (f : α → β) (l : List α) (h : (l.map f).Nodup) (x y : α)
+    (hx : x ∈ l) (hy : y ∈ l) (he : f x = f y) : x = y := by
+  induction l with
+  | nil => cases hx
+  | cons a as ih =>
+    simp only [List.map_cons] at h
+    obtain ⟨h1, h2⟩ := List.nodup_cons.mp h
+    rcases List.mem_cons.mp hx with hxa | hxs
+    · rcases List.mem_cons.mp hy with hya | hys
+      · rw [hxa, hya]
+      · exact absurd (List.mem_map.mpr ⟨y, hys, by rw [← he, hxa]⟩) h1
+    · rcases List.mem_cons.mp hy with hya | hys
+      · exact absurd (List.mem_map.mpr ⟨x, hxs, by rw [he, hya]⟩) h1
+      · exact ih h2 hxs hys
+
+/-- what `Origin` says about a wrapper's name and parent (well-formed trees) -/
+theorem Origin.facts {dest0 : Str} {root : Cls} {res : List (Str × Str)} (hwf : wfCls root)
+    {x : SRec} (h : Origin dest0 root res x) :
+    '.' ∉ x.fr.name ∧ (x.fr.parentDest = dest0 ∨ ∃ k, (x.fr.parentDest, k) ∈ res) := by
+  obtain ⟨pd, lvl, kw, forced, fs, ha, r0, h0, he⟩ := h
+  obtain ⟨_, e2, e3, _, _, _⟩ := strip_eq_facts x r0 he
+  obtain ⟨p1, _, _⟩ := recsOf_mem pd lvl kw forced fs r0 h0
+  refine ⟨?_, ?_⟩
+  · rw [e2]
+    exact (wfFlds_names fs (ha.wf hwf)).2 _ (recsOf_name_mem pd lvl kw forced fs r0 h0)
+  · rw [e3, p1]; exact ha.parent
+
+theorem expandOne_nodup (dest0 : Str) (root : Cls) (hwf : wfCls root) (hd0 : '.' ∉ dest0)
+    (ns : List (Str × Val)) (r : SRec)
+    (acc acc' : List SRec × List (Str × Str) × List (Str × Str) × List (Str × Val))
+    (hg : AccGood dest0 root acc) (hr : r ∈ acc.1) (hnd : (acc.1.map SRec.dest).Nodup)
+    (hun : ∀ k, (r.dest, k) ∉ acc.2.1) (h : expandOne ns r acc = .ok acc') :
+    (acc'.1.map SRec.dest).Nodup := by
+  unfold expandOne at h
+  split at h
+  · injection h with h; subst h; exact hnd
+  · rename_i dflt forced alts hk
+    split at h
+    · rename_i k hl
+      split at h
+      · cases h
+      · rename_i kind kw cls hf
+        injection h with h
+        subst h
+        simp only
+        -- the chosen entry's class body is well-formed
+        obtain ⟨pd, lvl, kw0, f0, fs, ha, r0, h0, he⟩ := hg.origin r hr
+        obtain ⟨e1, _, _, _, _, _⟩ := strip_eq_facts r r0 he
+        obtain ⟨_, _, p3⟩ := recsOf_mem pd lvl kw0 f0 fs r0 h0
+        obtain ⟨_, hs⟩ := p3 dflt forced alts (by rw [← e1, hk])
+        have hwc : wfFlds cls.fields :=
+          wfCls_fields cls (wfAlts_find k kind kw cls alts (wfFlds_hasSub _ _ _ fs (ha.wf hwf) hs) hf)
+        obtain ⟨hnn, hdot⟩ := wfFlds_names cls.fields hwc
+        -- no existing wrapper sits at a destination of the new ones
+        have hfresh : ∀ x ∈ acc.1, ∀ y ∈ recsOf r.dest (r.fr.level + 1) kw (kind == .inst) cls.fields,
+            x.dest ≠ y.dest := by
+          intro x hx y hy heq
+          obtain ⟨q1, _, _⟩ := recsOf_mem _ _ _ _ cls.fields y hy
+          have hyn := hdot _ (recsOf_name_mem _ _ _ _ cls.fields y hy)
+          obtain ⟨hxn, hxp⟩ := (hg.origin x hx).facts hwf
+          unfold SRec.dest at heq
+          rw [q1] at heq
+          obtain ⟨hpd, _⟩ := dest_split_inj _ _ _ _ hxn hyn heq
+          rcases hxp with hxp | ⟨k', hk'⟩
+          · rw [hpd] at hxp
+            have : '.' ∈ r.dest := by unfold SRec.dest; simp
+            rw [hxp] at this
+            exact hd0 this
+          · rw [hpd] at hk'
+            exact hun k' hk'
+        obtain ⟨l₁, l₂, hsplit, hins⟩ := insertChild_split r.fr.parentDest
+          (recsOf r.dest (r.fr.level + 1) kw (kind == .inst) cls.fields) acc.1
+        rw [hins]
+        rw [hsplit] at hnd hfresh
+        simp only [List.map_append] at hnd ⊢
+        obtain ⟨n1, n2, n3⟩ := List.nodup_append.mp hnd
+        have hnew : ((recsOf r.dest (r.fr.level + 1) kw (kind == .inst) cls.fields).map SRec.dest).Nodup := by
+          rw [recsOf_dests]; exact nodup_map_prefix _ _ hnn
+        refine List.nodup_append.mpr ⟨n1, List.nodup_append.mpr ⟨hnew, n2, ?_⟩, ?_⟩
+        · intro a ha' b hb hab
+          obtain ⟨y, hy, rfl⟩ := List.mem_map.mp ha'
+          obtain ⟨x, hx, rfl⟩ := List.mem_map.mp hb
+          exact hfresh x (List.mem_append.mpr (Or.inr hx)) y hy hab.symm
+        · intro a ha' b hb hab
+          obtain ⟨x, hx, rfl⟩ := List.mem_map.mp ha'
+          rcases List.mem_append.mp hb with hb | hb
+          · obtain ⟨y, hy, rfl⟩ := List.mem_map.mp hb
+            exact hfresh x (List.mem_append.mpr (Or.inl hx)) y hy hab
+          · exact n3 _ ha' _ hb hab
+    · cases h
+
+theorem expandAll_nodup (dest0 : Str) (root : Cls) (hwf : wfCls root) (hd0 : '.' ∉ dest0)
+    (ns : List (Str × Val)) (rs : List SRec)
+    (acc acc' : List SRec × List (Str × Str) × List (Str × Str) × List (Str × Val))
+    (hg : AccGood dest0 root acc) (hrs : ∀ r ∈ rs, r ∈ acc.1) (hnd : (acc.1.map SRec.dest).Nodup)
+    (hun : ∀ r ∈ rs, ∀ k, (r.dest, k) ∉ acc.2.1) (hrn : (rs.map SRec.dest).Nodup)
+    (h : expandAll ns rs acc = .ok acc') : (acc'.1.map SRec.dest).Nodup := by
+  induction rs generalizing acc with
+  | nil =>
+    simp only [expandAll, Except.ok.injEq] at h
+    subst h; exact hnd
+  | cons r rs ih =>
+    unfold expandAll at h
+    split at h
+    · cases h
+    · rename_i acc1 h1
+      obtain ⟨g1, s1, _, u1⟩ := expandOne_good dest0 root ns r acc acc1 hg (hrs r (by simp)) h1
+      have n1 := expandOne_nodup dest0 root hwf hd0 ns r acc acc1 hg (hrs r (by simp)) hnd
+        (hun r (by simp)) h1
+      simp only [List.map_cons] at hrn
+      obtain ⟨hr1, hr2⟩ := List.nodup_cons.mp hrn
+      refine ih acc1 g1 (fun x hx => s1 x (hrs x (by simp [hx]))) n1 ?_ hr2 h
+      intro r2 hr2m k hk
+      rcases u1 _ hk with hk | hk
+      · exact hun r2 (by simp [hr2m]) k hk
+      · exact hr1 (List.mem_map.mpr ⟨r2, hr2m, hk⟩)
+
+theorem round_nodup (cfg : Cfg) (mode : CR) (dest0 : Str) (root : Cls) (hwf : wfCls root)
+    (hd0 : '.' ∉ dest0) (st st' : RState) (argv : List (Str × Str)) (hg : Good dest0 root st)
+    (hnd : (st.recs.map SRec.dest).Nodup) (h : round cfg mode st argv = .ok st') :
+    (st'.recs.map SRec.dest).Nodup := by
+  obtain ⟨ns, recs, _, _, hex, hre⟩ := round_ok cfg mode st st' argv h
+  have hsub : ((unresolved st).map SRec.dest).Nodup := by
+    unfold unresolved
+    exact List.Nodup.sublist (List.Sublist.map _ List.filter_sublist) hnd
+  have := expandAll_nodup dest0 root hwf hd0 ns (unresolved st) _ _ ⟨hg.origin, hg.chosen⟩
+    (fun r hr => (unresolved_mem st r hr).1) hnd (fun r hr => (unresolved_mem st r hr).2.2) hsub hex
+  rw [map_dest_of_map_strip recs st'.recs (reResolve_strip cfg mode recs st'.recs hre)]
+  exact this
+
+theorem loop_nodup (cfg : Cfg) (mode : CR) (dest0 : Str) (root : Cls) (hwf : wfCls root)
+    (hd0 : '.' ∉ dest0) (n : Nat) (st st' : RState) (argv : List (Str × Str)) (hg : Good dest0 root st)
+    (hnd : (st.recs.map SRec.dest).Nodup) (h : loop cfg mode n st argv = .ok st') :
+    (st'.recs.map SRec.dest).Nodup := by
+  induction n generalizing st with
+  | zero => simp [loop] at h
+  | succ n ih =>
+    unfold loop at h
+    split at h
+    · rename_i st1 hr
+      have g1 := round_good cfg mode dest0 root st st1 argv hg hr
+      have n1 := round_nodup cfg mode dest0 root hwf hd0 st st1 argv hg hnd hr
+      split at h
+      · injection h with h; subst h; exact n1
+      · exact ih st1 g1 n1 h
+    · cases h
+    · cases h
+    · cases h
+
+/-- **destinations are unique.** For a well-formed tree (distinct dot-free field names per class)
+    registered at a dot-free destination, no two field wrappers of the final wrapper list share a
+    destination — at any depth. -/
+theorem c07_dests_nodup (cfg : Cfg) (mode : CR) (dest : Str) (root : Cls) (argv : List (Str × Str))
+    (hwf : wfCls root) (hd0 : '.' ∉ dest) (st : RState)
+    (h : resolveSubgroups cfg mode dest root argv = .ok st) : (st.recs.map SRec.dest).Nodup := by
+  unfold resolveSubgroups at h
+  split at h
+  · cases h
+  · rename_i st0 h0
+    obtain ⟨g0, _, _⟩ := initState_good cfg mode dest root st0 h0
+    have n0 : (st0.recs.map SRec.dest).Nodup := by
+      unfold initState at h0
+      split at h0
+      · cases h0
+      · rename_i recs hre
+        injection h0 with h0
+        subst h0
+        simp only
+        rw [map_dest_of_map_strip _ recs (reResolve_strip cfg mode _ recs hre), recsOf_dests]
+        exact nodup_map_prefix _ _ (wfFlds_names _ (wfCls_fields root hwf)).1
+    split at h
+    · injection h with h; subst h; exact n0
+    · exact loop_nodup cfg mode dest root hwf hd0 _ st0 st argv g0 n0 h
+
+/-! ### 14. every value is read off the wrapper's own action; lifting to `parse_args` -/
+
+theorem toAct_dest (cfg : Cfg) (r : SRec) : (r.toAct cfg).dest = r.dest := by
+  unfold SRec.toAct; cases r.kind <;> rfl
+
+theorem lookup_map_nodup (recs : List SRec) (f : SRec → Val) (hnd : (recs.map SRec.dest).Nodup)
+    (r : SRec) (hr : r ∈ recs) : (recs.map (fun x => (x.dest, f x))).lookup r.dest = some (f r) := by
+  induction recs with
+  | nil => cases hr
+  | cons x xs ih =>
+    simp only [List.map_cons, List.lookup]
+    by_cases hx : r.dest == x.dest
+    · simp only [hx]
+      have : r = x := nodup_map_inj SRec.dest (x :: xs) hnd r x hr (by simp) (eq_of_beq hx)
+      rw [this]
+    · simp only [hx]
+      simp only [List.map_cons] at hnd
+      rcases List.mem_cons.mp hr with rfl | hr'
+      · simp at hx
+      · exact ih (List.nodup_cons.mp hnd).2 hr'
+
+theorem findExact_mem (tbl : List Act) (o : Str) (a : Act) (h : findExact tbl o = some a) : a ∈ tbl := by
+  induction tbl with
+  | nil => simp [findExact] at h
+  | cons x xs ih =>
+    simp only [findExact] at h
+    split at h
+    · injection h with h; simp [h]
+    · simp [ih h]
+
+theorem findOpt_mem (ab : Bool) (tbl : List Act) (o : Str) (a : Act) (h : findOpt ab tbl o = .act a) :
+    a ∈ tbl := by
+  unfold findOpt at h
+  split at h
+  · rename_i a' hf
+    injection h with h
+    exact h ▸ findExact_mem tbl o a' hf
+  · split at h
+    · split at h
+      · cases h
+      · rename_i s a' hm
+        injection h with h
+        have : (s, a') ∈ prefixMatches tbl o := by rw [hm]; simp
+        unfold prefixMatches at this
+        obtain ⟨b, hb, hin⟩ := List.mem_flatMap.mp this
+        obtain ⟨_, _, he⟩ := List.mem_map.mp hin
+        simp only [Prod.mk.injEq] at he
+        rw [← h, ← he.2]; exact hb
+      · cases h
+    · cases h
+
+theorem lastFor_some (ab : Bool) (tbl : List Act) (d : Str) (argv : List (Str × Str)) (v : Str)
+    (h : lastFor ab tbl d argv = some v) :
+    ∃ p ∈ argv, p.2 = v ∧ ∃ a, findOpt ab tbl p.1 = .act a ∧ a.dest = d := by
+  induction argv with
+  | nil => simp [lastFor] at h
+  | cons q rest ih =>
+    simp only [lastFor] at h
+    cases hr : lastFor ab tbl d rest with
+    | some x =>
+      simp only [hr, Option.some.injEq] at h
+      obtain ⟨p, hp, h1, h2⟩ := ih (by rw [hr, h])
+      exact ⟨p, by simp [hp], h1, h2⟩
+    | none =>
+      simp only [hr] at h
+      cases hf : findOpt ab tbl q.1 with
+      | act a =>
+        simp only [hf] at h
+        by_cases hd : a.dest = d
+        · simp only [hd, ↓reduceIte, Option.some.injEq] at h
+          exact ⟨q, by simp, h, a, hf, hd⟩
+        · simp [hd] at h
+      | none => simp [hf] at h
+      | ambiguous => simp [hf] at h
+
+/-- **c07_value (exact).** With unique destinations (`c07_dests_nodup`), the leaves of an accepted
+    parse are exactly the active plain fields — one entry per non-subgroup field wrapper and no
+    other — each with the namespace value of **its own** action. -/
+theorem c07_value_exact (cfg : Cfg) (st : RState) (argv : List (Str × Str)) (res : Res)
+    (hnd : (st.recs.map SRec.dest).Nodup) (h : finishParse cfg st argv = .ok res) :
+    res.leaves = (st.recs.filter (fun r => !r.isSub)).map
+      (fun r => (r.dest, actValue true (mainTable cfg st) argv (r.toAct cfg))) := by
+  unfold finishParse at h
+  simp only at h
+  split at h
+  · cases h
+  · split at h
+    · cases h
+    · cases h
+    · rename_i ns hp
+      injection h with h
+      subst h
+      simp only
+      obtain ⟨hns, _, _, _⟩ := parseOut_ok _ _ _ _ _ hp
+      have hns' : ns = st.recs.map
+          (fun x => (x.dest, actValue true (mainTable cfg st) argv (x.toAct cfg))) := by
+        rw [hns]
+        conv => lhs; arg 2; unfold mainTable
+        rw [List.map_map]
+        apply List.map_congr_left
+        intro x _
+        simp [toAct_dest]
+      apply List.map_congr_left
+      intro r hr
+      have hr' : r ∈ st.recs := (List.mem_filter.mp hr).1
+      rw [hns', lookup_map_nodup st.recs _ hnd r hr']
+      rfl
+
+/-- **c07_value (one leaf).** The value of an active plain field `r` in an accepted parse: the last
+    pair whose option addresses `r`'s own action (exactly or as its unique abbreviation) converted by
+    its `type=`, else the default its wrapper carries (`c07_origin` + `c07_value_defaults`: the chosen
+    entry's keyword / attribute, else the class default). -/
+theorem c07_leaf_value (cfg : Cfg) (st : RState) (argv : List (Str × Str)) (res : Res)
+    (hnd : (st.recs.map SRec.dest).Nodup) (h : finishParse cfg st argv = .ok res)
+    (r : SRec) (hr : r ∈ st.recs) (c : BConv) (d : Option Scalar) (hk : r.kind = .leaf c d) :
+    ∃ v, (r.dest, v) ∈ res.leaves ∧
+      ((∃ p ∈ argv, ∃ s, lastFor true (mainTable cfg st) r.dest argv = some p.2 ∧
+          findOpt true (mainTable cfg st) p.1 = .act (r.toAct cfg) ∧
+          convOk (r.toAct cfg) p.2 = some s ∧ v = .sc s) ∨
+       (lastFor true (mainTable cfg st) r.dest argv = none ∧ ∃ s, d = some s ∧ v = .sc s)) := by
+  have hleaves := c07_value_exact cfg st argv res hnd h
+  have hns : ∃ ns, parseOut true true (mainTable cfg st) argv = .ok ns := by
+    unfold finishParse at h
+    simp only at h
+    split at h
+    · cases h
+    · split at h
+      · cases h
+      · cases h
+      · rename_i ns hp; exact ⟨ns, hp⟩
+  obtain ⟨ns, hp⟩ := hns
+  obtain ⟨_, _, _, hreq⟩ := parseOut_ok _ _ _ _ _ hp
+  have hsub : r.isSub = false := by simp [SRec.isSub, hk]
+  refine ⟨actValue true (mainTable cfg st) argv (r.toAct cfg), ?_, ?_⟩
+  · rw [hleaves]
+    exact List.mem_map.mpr ⟨r, List.mem_filter.mpr ⟨hr, by simp [hsub]⟩, rfl⟩
+  · have hmem : r.toAct cfg ∈ mainTable cfg st := List.mem_map.mpr ⟨r, hr, rfl⟩
+    have hreqf : (r.toAct cfg).required = d.isNone := by unfold SRec.toAct; rw [hk]
+    have hdef : (r.toAct cfg).default = d.map (fun s => Val.sc s) := by unfold SRec.toAct; rw [hk]
+    rcases actValue_leaf true (mainTable cfg st) argv (r.toAct cfg) with ⟨v, hl, hv⟩ | ⟨hl, hv⟩
+    · left
+      rw [toAct_dest] at hl
+      obtain ⟨p, hpm, hp2, a, hf, had⟩ := lastFor_some true _ _ _ _ hl
+      have ha := findOpt_mem true _ _ _ hf
+      obtain ⟨r', hr', hra⟩ := List.mem_map.mp ha
+      have : r' = r := nodup_map_inj SRec.dest st.recs hnd r' r hr' hr (by
+        rw [← toAct_dest cfg r', hra, had])
+      rw [this] at hra
+      rw [← hra] at hf
+      obtain ⟨s, hs⟩ := accepted_converts true true _ argv ns hp p hpm _ hf
+      refine ⟨p, hpm, s, by rw [hl, hp2], hf, hs, ?_⟩
+      rw [hv, ← hp2, hs]
+    · right
+      rw [toAct_dest] at hl
+      refine ⟨hl, ?_⟩
+      have := (List.any_eq_false.mp hreq) _ hmem
+      rw [toAct_dest, hl, hreqf] at this
+      rw [hv, hdef]
+      cases d with
+      | none => simp at this
+      | some s => exact ⟨s, rfl, rfl⟩
+
+theorem run_ok (cfg : Cfg) (mode : CR) (dest : Str) (root : Cls) (argv : List (Str × Str)) (res : Res)
+    (h : Subgroups.run cfg mode dest root argv = .ok res) :
+    ∃ st, resolveSubgroups cfg mode dest root argv = .ok st ∧ finishParse cfg st argv = .ok res := by
+  unfold Subgroups.run at h
+  split at h
+  · cases h
+  · cases h
+  · cases h
+  · rename_i st hs; exact ⟨st, hs, h⟩
+
+theorem resolve_select (cfg : Cfg) (mode : CR) (dest : Str) (root : Cls) (argv : List (Str × Str))
+    (st : RState) (h : resolveSubgroups cfg mode dest root argv = .ok st) :
+    ∀ p ∈ st.resolved, SelAt cfg st.ctbl argv p.1 p.2 := by
+  unfold resolveSubgroups at h
+  split at h
+  · cases h
+  · rename_i st0 h0
+    obtain ⟨_, hres, htbl⟩ := initState_good cfg mode dest root st0 h0
+    split at h
+    · injection h with h; subst h
+      intro p hp; rw [hres] at hp; cases hp
+    · obtain ⟨_, hsel⟩ := c07_select cfg mode _ st0 st argv (by intro a ha; rw [htbl] at ha; cases ha) h
+      intro p hp
+      rcases hsel p hp with hin | hs
+      · rw [hres] at hin; cases hin
+      · exact hs
+
+/-- **c07_select for `parse_args`.** When `parse_args` returns: every subgroup resolved on the way
+    (any depth) got the key given for it — one of its keys — else its declared default key
+    (`SelAt`/`Sel`); that key's entry is the one whose class is wrapped and instantiated at the
+    subgroup's destination (`Chosen`, `res.classes`); every field wrapper belongs to the root or to a
+    chosen entry (`Good.origin`). -/
+theorem c07_select_run (cfg : Cfg) (mode : CR) (dest : Str) (root : Cls) (argv : List (Str × Str))
+    (res : Res) (h : Subgroups.run cfg mode dest root argv = .ok res) :
+    ∃ st, resolveSubgroups cfg mode dest root argv = .ok st ∧ Good dest root st ∧
+      ∀ p ∈ st.resolved, SelAt cfg st.ctbl argv p.1 p.2 ∧ Chosen st.recs res.classes p.1 p.2 := by
+  obtain ⟨st, hs, hf⟩ := run_ok cfg mode dest root argv res h
+  have hg := c07_origin cfg mode dest root argv st hs
+  obtain ⟨hcl, _, _⟩ := c07_value cfg st argv res hf
+  refine ⟨st, hs, hg, fun p hp => ⟨resolve_select cfg mode dest root argv st hs p hp, ?_⟩⟩
+  rw [hcl]; exact hg.chosen p hp
+
+/-- **c07_unknown_key for `parse_args`.** An unknown key met by the choice parser after `k` successful
+    rounds (`k` at most the depth of the tree) makes `parse_args` exit with status 2. -/
+theorem c07_unknown_key_run (cfg : Cfg) (mode : CR) (dest : Str) (root : Cls) (st0 st : RState) (k : Nat)
+    (argv : List (Str × Str)) (h0 : initState cfg mode dest root = .ok st0)
+    (hne : (unresolved st0).isEmpty = false) (hr : Reach cfg mode argv st0 st k) (hk : k ≤ root.depth)
+    (ctbl : List Act) (hreg : register cfg st.ctbl (unresolved st) = .ok ctbl)
+    (htbl : tableOk ctbl = true) (hshape : argv.all pairOk = true)
+    (p : Str × Str) (hp : p ∈ argv) (a : Act) (ch : List Str)
+    (hfind : findExact ctbl p.1 = some a) (hconv : a.conv = .base .str)
+    (hch : a.choices = some ch) (hnot : ch.contains p.2 = false) :
+    Subgroups.run cfg mode dest root argv = .exit2 := by
+  apply run_exit_of_resolve
+  unfold resolveSubgroups
+  simp only [h0, hne, Bool.false_eq_true, ↓reduceIte]
+  have : root.depth + 1 = k + ((root.depth - k) + 1) := by omega
+  rw [this]
+  exact c07_unknown_key cfg mode st0 st k (root.depth - k) argv hr ctbl hreg htbl hshape p hp a ch
+    hfind hconv hch hnot
+
+/-- **c07_unknown_key, main parser.** A value that is not a key, passed under an option that only the
+    main parser reads as a subgroup's option (an abbreviation, or a renamed option), is rejected there. -/
+theorem c07_unknown_key_main (cfg : Cfg) (st : RState) (argv : List (Str × Str))
+    (htbl : tableOk (mainTable cfg st) = true) (hshape : argv.all pairOk = true)
+    (p : Str × Str) (hp : p ∈ argv) (a : Act) (ch : List Str)
+    (hfind : findOpt true (mainTable cfg st) p.1 = .act a) (hconv : a.conv = .base .str)
+    (hch : a.choices = some ch) (hnot : ch.contains p.2 = false) :
+    finishParse cfg st argv = .exit2 := by
+  have hbad : pairBad true true (mainTable cfg st) p = true := by
+    simp only [pairBad, hfind, convOk, hconv, Conv.apply, BConv.apply, hch, hnot,
+      Bool.false_eq_true, ↓reduceIte, Option.isNone_none]
+  have := parseOut_bad true true _ argv hshape p hp hbad
+  unfold finishParse
+  simp [htbl, this]
+
+theorem c07_unknown_key_main_run (cfg : Cfg) (mode : CR) (dest : Str) (root : Cls) (st : RState)
+    (argv : List (Str × Str)) (hres : resolveSubgroups cfg mode dest root argv = .ok st)
+    (htbl : tableOk (mainTable cfg st) = true) (hshape : argv.all pairOk = true)
+    (p : Str × Str) (hp : p ∈ argv) (a : Act) (ch : List Str)
+    (hfind : findOpt true (mainTable cfg st) p.1 = .act a) (hconv : a.conv = .base .str)
+    (hch : a.choices = some ch) (hnot : ch.contains p.2 = false) :
+    Subgroups.run cfg mode dest root argv = .exit2 := by
+  simp [Subgroups.run, hres,
+    c07_unknown_key_main cfg st argv htbl hshape p hp a ch hfind hconv hch hnot]
+
+/-- the demo trees are well-formed, `config` is dot-free: the hypotheses of `c07_dests_nodup` hold -/
+example : wfCls deepRoot ∧ '.' ∉ "config".toList := by
+  refine ⟨?_, by decide⟩
+  simp only [deepRoot, clsA, clsM, clsL, clsL2, wfCls, wfFlds, wfAlts, fldNames]
+  decide
+
+/-- `--mod zz`: only the main parser reads it (as `--model`), and rejects the unknown key -/
+example : Subgroups.run cfg0 .auto "config".toList demoRoot [("--mod".toList, "zz".toList)] = .exit2 := by
+  decide
 
 end SpVerif.C07
